@@ -211,8 +211,10 @@ func (g *G) indexExpr(d int) *E {
 	case x < 19:
 		return &E{Op: "int", Z: lib.Pick(g.r, []int64{2, 3, -1, 5})}
 	default:
+		// the checker gives the index position the expected type `Integer`, which a conditional or a
+		// literal operand would adopt; a probe call is typed Int8 by itself
 		if d > 0 {
-			return g.expr(TInt, d-1, false)
+			return g.probe(TInt, g.expr(TInt, d-1, true))
 		}
 		return g.probe(TInt, &E{Op: "int", Z: 2})
 	}
